@@ -56,6 +56,15 @@ def ty_head(ty):
     return t[:k] if k > 0 else t
 
 
+def deref(x):
+    """the object a reference-valued sym points to"""
+    if x[0] == 'ref':
+        return x[1]
+    if x[0] == 'place':
+        return ('place', x[1], x[2] + ('*',))
+    return ('deref', x)
+
+
 class Facts:
     def __init__(self, db, body):
         self.db = db; self.b = body
@@ -173,8 +182,7 @@ class Facts:
         if k == 'un':
             a = self.sym_operand(rv[2], depth)
             if rv[1] == 'PtrMetadata':
-                x = a[1] if a[0] == 'ref' else ('deref', a)
-                return ('len', x)
+                return ('len', deref(a))
             return ('un', rv[1], a)
         if k == 'cast':
             a = self.sym_operand(rv[2], depth)
@@ -193,12 +201,12 @@ class Facts:
         if args:
             a0 = args[0]
             if LEN_CALLS.search(name) and len(args) == 1:
-                return ('len', a0[1] if a0[0] == 'ref' else ('deref', a0))
+                return ('len', deref(a0))
             if DEREF_CALLS.search(name) and len(args) == 1 and not name.startswith(('std::option::Option', 'core::option::Option', 'std::result::Result')):
                 # borrowed view of the same object
-                return a0 if a0[0] == 'ref' else ('ref', ('deref', a0))
+                return a0 if a0[0] == 'ref' else ('ref', deref(a0))
             if name.endswith('::clone') and len(args) == 1 and call.body.locals[call.dest[0]] in ('usize', 'u32', 'u64', 'i32', 'u8', 'u16', 'i64', 'bool'):
-                return a0[1] if a0[0] == 'ref' else ('deref', a0)
+                return deref(a0)
         return ('call', name, args, call.bb)
 
     # ------------------------------------------------------------ edge literals
@@ -224,13 +232,19 @@ class Facts:
             short = e[1].rsplit('::', 1)[-1]
             if short in PRED_VARIANT and len(e[2]) == 1:
                 name, pos = PRED_VARIANT[short]
-                x = e[2][0]
-                x = x[1] if x[0] == 'ref' else ('deref', x)
+                x = deref(e[2][0])
                 return [('variant', x, name, pos == val), ('truth', e, val)]
             if short == 'is_empty' and len(e[2]) == 1:
-                x = e[2][0]
-                x = x[1] if x[0] == 'ref' else ('deref', x)
+                x = deref(e[2][0])
                 return [('cmp', 'eq' if val else 'ne', ('len', x), ('k', '0', 'usize')), ('truth', e, val)]
+            summ = self.pred_summary(e[1]) if len(e[2]) == 1 else None
+            if summ is not None:
+                # G6: a local one-line predicate such as `fn is_null(&self) -> bool { self.value.is_none() }`
+                fproj, name, pos = summ
+                x = deref(e[2][0])
+                for t in fproj:
+                    x = self._project(x, (t,))
+                return [('variant', x, name, pos == val), ('truth', e, val)]
             if short in ('eq', 'ne') and len(e[2]) == 2:
                 a, b = e[2]
                 a = a[1] if a[0] == 'ref' else a
@@ -238,6 +252,28 @@ class Facts:
                 op = 'eq' if (short == 'eq') == val else 'ne'
                 return [('cmp', op, a, b), ('truth', e, val)]
         return [('truth', e, val)]
+
+    def pred_summary(self, callee):
+        """(field projection, variant, polarity) when `callee` is a local fn(&self) -> bool whose body is exactly
+        one Option/Result predicate on a field of self"""
+        cache = self.db.__dict__.setdefault('_pred_summ', {})
+        if callee in cache:
+            return cache[callee]
+        res = None
+        b = self.db.body(callee)
+        if b is not None and b.argc == 1 and b.locals[0] == 'bool' and len(b.blocks) <= 4:
+            calls = b.calls()
+            if len(calls) == 1:
+                c = calls[0]
+                short = c.callee.rsplit('::', 1)[-1]
+                if short in PRED_VARIANT and len(c.args) == 1 and c.dest[0] == 0 and not c.dest[1]:
+                    Fb = Facts(self.db, b)
+                    a = Fb.sym_operand(c.args[0])
+                    if a[0] == 'ref' and a[1][0] == 'place' and a[1][1] == 1 and a[1][2][:1] == ('*',):
+                        name, pos = PRED_VARIANT[short]
+                        res = (a[1][2][1:], name, pos)
+        cache[callee] = res
+        return res
 
     def edge_literals(self, src, label):
         """literals that hold when control takes the edge of block `src` labelled `label`"""
@@ -315,22 +351,42 @@ class Facts:
         return out
 
     # ------------------------------------------------------------ kills
-    def roots_of(self, sym, acc=None):
+    def roots_of(self, sym, acc=None, in_len=False):
+        """{(root local, projection, only_under_len)} of the places a sym mentions"""
         if acc is None:
             acc = set()
         if isinstance(sym, tuple):
             if sym and sym[0] == 'place':
-                acc.add((sym[1], sym[2]))
+                acc.add((sym[1], sym[2], in_len))
+            elif sym and sym[0] == 'len':
+                self.roots_of(sym[1], acc, True)
+                return acc
             elif sym and sym[0] == 'call':
                 # the result of a past call is a snapshot: later changes to its arguments do not change it
                 return acc
             else:
                 for x in sym:
                     if isinstance(x, tuple):
-                        self.roots_of(x, acc)
+                        self.roots_of(x, acc, in_len)
         return acc
 
-    def kill_sites(self, root, proj):
+    def fixed_len(self, root, proj):
+        """is root.proj a slice or array (its length cannot change through a mutable borrow)?"""
+        t = self.b.locals[root]
+        for tok in proj:
+            if tok == '*':
+                t = t.lstrip('&').strip()
+                if t.startswith('mut '):
+                    t = t[4:]
+                if t.startswith("'"):
+                    t = t.split(' ', 1)[1] if ' ' in t else t
+                    if t.startswith('mut '):
+                        t = t[4:]
+            else:
+                return False
+        return t.startswith('[')
+
+    def kill_sites(self, root, proj, assign_only=False):
         """(bb, idx) of statements/terminators that may change the value of place root.proj
         (idx = len(stmts) for the terminator)"""
         out = []
@@ -344,9 +400,9 @@ class Facts:
                     if st[1][0] == root and overlaps(st[1][1]):
                         out.append((bi, si))
                     rv = st[2]
-                    if rv[0] == 'ref' and rv[1] == 'mut' and rv[2][0] == root and overlaps(rv[2][1]):
+                    if not assign_only and rv[0] == 'ref' and rv[1] == 'mut' and rv[2][0] == root and overlaps(rv[2][1]):
                         out.append((bi, si))
-                    if rv[0] == 'rawptr' and rv[1][0] == root and overlaps(rv[1][1]):
+                    if not assign_only and rv[0] == 'rawptr' and rv[1][0] == root and overlaps(rv[1][1]):
                         out.append((bi, si))
                 elif st[0] == 'setdiscr' and st[1][0] == root and overlaps(st[1][1]):
                     out.append((bi, si))
@@ -356,7 +412,7 @@ class Facts:
                     out.append((bi, len(blk['s'])))
                 # moving a `&mut` root into a call hands out mutable access
                 for a in t[2]:
-                    if a[0] == 'mv' and a[1][0] == root and not a[1][1] and self.b.locals[root].startswith('&mut') and proj[:1] == ('*',):
+                    if not assign_only and a[0] == 'mv' and a[1][0] == root and not a[1][1] and self.b.locals[root].startswith('&mut') and proj[:1] == ('*',):
                         out.append((bi, len(blk['s'])))
             elif t[0] == 'drop':
                 if t[1][0] == root and overlaps(t[1][1]):
@@ -393,8 +449,13 @@ class Facts:
         back = self.b.can_reach(site_bb, removed_edge=edge)
         between = fwd & back
         site_loops = any(s in back for s in self.b.succ(site_bb) if (site_bb, s) != edge)
-        for root, proj in self.roots_of(sym):
-            for kb, ki in self.kill_sites(root, proj):
+        for root, proj, len_only in self.roots_of(sym):
+            # the length of a slice/array cannot change through a mutable borrow of it
+            assign_only = len_only and self.fixed_len(root, proj)
+            if assign_only:
+                # only a re-assignment of the reference itself matters
+                proj = ()
+            for kb, ki in self.kill_sites(root, proj, assign_only):
                 if kb not in between:
                     continue
                 if kb == site_bb and ki >= site_idx and not site_loops:
@@ -452,6 +513,14 @@ class Facts:
             _, op2, x, y = lit
             if x == a and y == b and op in IMPLIES[op2]:
                 return (lit, edge)
+            # x >= (y + c), c >= 0 (no wrap: the checked add would have panicked)  =>  x >= y
+            if op in ('ge', 'gt') or op in ('le', 'lt'):
+                for (xx, yy, o2) in ((x, y, op2), (y, x, FLIP[op2])):
+                    # normalise to  xx o2 yy  with goal  a op b
+                    if op in ('ge',) and xx == a and o2 in ('ge', 'gt', 'eq') and self._is_sum_with(yy, b):
+                        return (lit, edge)
+                    if op in ('le',) and xx == b and o2 in ('ge', 'gt', 'eq') and self._is_sum_with(yy, a):
+                        return (lit, edge)
             if x == b and y == a and op in IMPLIES[FLIP[op2]]:
                 return (lit, edge)
             # constant reasoning: fact x op2 c2, goal x op c  (x == a, b const)
@@ -468,6 +537,17 @@ class Facts:
                         if self._const_implies(o2, cy, FLIP[op], ca):
                             return (lit, edge)
         return None
+
+    def _is_sum_with(self, s, term):
+        """s == term + <non-negative constant> (checked add)"""
+        if s[0] == 'proj' and s[2] == '.0':
+            s = s[1]
+        if s[0] == 'bin' and s[1] in ('Add', 'AddWithOverflow'):
+            for u, v in ((s[2], s[3]), (s[3], s[2])):
+                c = self.const_int(v)
+                if u == term and c is not None and c >= 0:
+                    return True
+        return False
 
     @staticmethod
     def _const_implies(o2, c2, op, c):
